@@ -193,6 +193,11 @@ def schedules(quick):
         ("lib-bad-import-then-fixed", "", [(0, "model", 1, "inplace"), (200, "lib-bad-import", 2, "inplace"), (300, "model", 3, "inplace"), (300, "lib-good-import", 4, "inplace"), (300, "model", 5, "inplace")]),
         ("lib-bad-import-then-fixed-fast", "", [(0, "lib-bad-import", 1, "inplace"), (50, "lib-good-import", 2, "inplace"), (50, "model", 3, "rename")]),
         ("forced-validated2-lib-edit", "regen.validated#2=1200", [(0, "lib", 1, "inplace"), (150, "model", 2, "inplace")]),
+        # "startbad-": the watcher starts on a package that does not validate; the saves that repair it
+        ("startbad-lib-repaired-in-lib", "", [(200, "lib", 1, "inplace")]),
+        ("startbad-lib-repaired-in-lib-rename", "", [(200, "lib", 1, "rename"), (300, "lib", 2, "rename")]),
+        ("startbad-base-repaired-in-base", "", [(200, "base-good", 1, "inplace")]),
+        ("startbad-main-repaired-in-main", "", [(200, "model", 1, "inplace")]),
         # "meaning-": the same definition names with a different meaning after every save (no particular timing needed)
         ("meaning-cycle", "", [(0, "meaning", 0, "inplace"), (400, "meaning", 1, "inplace"), (400, "meaning", 2, "inplace"), (400, "meaning", 3, "inplace"), (400, "meaning", 4, "inplace")]),
         ("meaning-cycle-back", "", [(0, "meaning", 4, "rename"), (400, "meaning", 3, "rename"), (400, "meaning", 1, "rename"), (400, "meaning", 0, "rename")]),
@@ -255,6 +260,13 @@ def run(ctx):
         write_tree(root, 0, single_import=single)
         if name.startswith("subdir-"):
             common.write_tree(root, {"main/sub/deep/extra.yml": "SubFile0: !record\n  fields:\n    z: int\n", "lib/more/extra.yml": "LibSub0: !record\n  fields:\n    z: int\n"})
+        if name.startswith("startbad-lib"):
+            # the watcher is started while an imported package (or the package the import imports) is invalid: the repair happens inside that package only
+            common.write_tree(root, {"lib/lib.yml": LIB + "Broken: !record\n  fields:\n    q: NoSuchType\n"})
+        elif name.startswith("startbad-base"):
+            common.write_tree(root, {"base/base.yml": BASE + "Broken: !record\n  fields:\n    q: NoSuchType\n"})
+        elif name.startswith("startbad-main"):
+            common.write_tree(root, {"main/model.yml": model(0).replace("v: ", "v: Missing")})
         overrides = ["-c", "python.outputDir=../out_override/python", "-c", "cpp.generateNDJson=false", "-c", "json.outputDir=../out_override/json"] if name.startswith("override-") else []
         w = Watcher(root, os.path.join(root, "home"), yardl, delays, args=overrides)
         os.makedirs(os.path.join(root, "home"), exist_ok=True)
@@ -300,6 +312,8 @@ def run(ctx):
                 elif kind == "lib":
                     lib_text = (LIB_ALONE if single else LIB) + "LibExtra%d: !record\n  fields:\n    q: int\n" % v
                     save(os.path.join(root, "lib/lib.yml"), lib_text, how)
+                elif kind == "base-good":
+                    save(os.path.join(root, "base/base.yml"), BASE, how)
                 elif kind == "lib-invalid":
                     save(os.path.join(root, "lib/lib.yml"), (LIB_ALONE if single else LIB) + "LibBroken%d: !record\n  fields:\n    q: NoSuchType\n" % v, how)
                     invalid_seen = True
@@ -382,6 +396,20 @@ def run(ctx):
                     # output that only exists because the overrides were dropped at some point
                     want.update({k: None for k in extra[:20]})
             stale = sorted(k for k in want if have.get(k) != want[k])
+            # on a heavily loaded machine the watcher may not yet have *started* the regeneration for the last save when the event log has been
+            # quiet for a moment: before an output is called stale, the watcher gets more time, as long as new events keep arriving
+            for _ in range(4):
+                if not stale:
+                    break
+                n_before = w.counts()[2]
+                time.sleep(2.0)
+                if w.counts()[2] == n_before:
+                    break
+                w.wait_quiescent(starts_before + 1, limit_s=25)
+                have = {k: v[3] for k, v in fsmon.snapshot(os.path.join(root, "out")).items() if v[0] == "file"}
+                if overrides and os.path.isdir(os.path.join(root, "out_override")):
+                    have.update({"override/" + k: v[3] for k, v in fsmon.snapshot(os.path.join(root, "out_override")).items() if v[0] == "file"})
+                stale = sorted(k for k in want if have.get(k) != want[k])
             ctx.case(name)
             ctx.count("kind." + name.split("-")[0])
             if stale:
